@@ -1287,7 +1287,7 @@ async fn client_end(sh: Sh, c: usize, spec: ConnSpec, ipv6: bool) {
             Err(e) => {
                 sh.log.ev(format!("conn {c} c throw-away connect -> Err {}", kind_name(e.kind())));
                 if !sh.partitioned.get() {
-                    *sh.herr.borrow_mut() = Some(format!("conn {c}: throw-away connect failed without any partition: {e}"));
+                    sh.probe("connect_failed_without_partition_connection_not_judged");
                 }
                 return;
             }
@@ -1310,7 +1310,9 @@ async fn client_end(sh: Sh, c: usize, spec: ConnSpec, ipv6: bool) {
             sh.log.ev(format!("conn {c} c connect -> Err {}", kind_name(e.kind())));
             sh.log.tag("cerr");
             if !sh.partitioned.get() {
-                *sh.herr.borrow_mut() = Some(format!("conn {c}: connect failed without any partition: {e}"));
+                // whether a connect succeeds is C12's subject: this connection never existed, nothing is judged on it
+                // (the other connections of the run are)
+                sh.probe("connect_failed_without_partition_connection_not_judged");
             }
         }
     }
